@@ -1,0 +1,139 @@
+//go:build verif
+
+package sync
+
+// Contracts for govc (/verif). Comment-only file: no executable code, not part of the default build.
+
+/*@
+// ---- C20: fork choice is stable and respects finality ----
+const maxU64 = 18446744073709551615
+const stReceivedTooLate = 1
+const stProcessed = 2
+const stNotarized = 4
+
+// maxEp(l, j): highest epoch among entries [0, j) of l (0 for none)
+spec fn maxEp(l []*headerInfo, j int) int
+  axiom maxEp(l, 0) == 0
+  axiom j > 0 ==> maxEp(l, j) == max(maxEp(l, j-1), l[j-1].epoch)
+
+func getMaxEpochFromHdrsInfo(hdrInfos []*headerInfo) (r uint32)
+  requires no-nil-entry: forall k :: 0 <= k && k < len(hdrInfos) ==> hdrInfos[k] != nil
+  ensures  max-epoch: r == maxEp(hdrInfos, len(hdrInfos))
+  assigns  nothing
+
+loop 1
+  invariant -1 <= rangeindex && rangeindex < len(hdrInfos) || (rangeindex == -1 && len(hdrInfos) == 0)
+  invariant maxEpoch == maxEp(hdrInfos, rangeindex + 1)
+
+struct baseForkDetector
+  guarded_by mutHeaders: headers
+  guarded_by mutFork: fork
+
+func (bfd *baseForkDetector) highestNonceReceived() (r uint64)
+  ensures  r == bfd.fork.highestNonceReceived
+  assigns  nothing
+
+func (bfd *baseForkDetector) getRollBackNonce() (r uint64)
+  ensures  r == bfd.fork.rollBackNonce
+  assigns  nothing
+
+func (bfd *baseForkDetector) SetRollBackNonce(nonce uint64)
+  ensures  bfd.fork.rollBackNonce == nonce
+  assigns  bfd.fork
+
+func (bfd *baseForkDetector) finalCheckpoint() (r *checkpointInfo)
+  ensures  r == bfd.fork.finalCheckpoint
+  assigns  nothing
+
+// an entry does not take part in the fork choice: received too late while a higher nonce is known, or (unless notarized) from an epoch below the highest epoch seen for the nonce
+spec fn skipped(bfd *baseForkDetector, e *headerInfo) bool = (e.state == stReceivedTooLate && bfd.fork.highestNonceReceived > e.nonce) || (e.state != stNotarized && e.epoch < bfd.maxForkHeaderEpoch)
+// the round an entry competes with: notarized headers win with process.MinForkRound
+spec fn effRound(e *headerInfo) int = e.state == stNotarized ? 0 : e.round
+
+func (bfd *baseForkDetector) computeForkInfo(hdrInfo *headerInfo, lastForkHash []byte, lastForkRound uint64, lastForkEpoch uint32) (h []byte, rd uint64, ep uint32)
+  requires hdrInfo != nil
+  ensures  takes-or-keeps: (h == hdrInfo.hash && rd == effRound(hdrInfo) && ep == hdrInfo.epoch) || (h == lastForkHash && rd == lastForkRound && ep == lastForkEpoch)
+  ensures  skipped-keeps: skipped(bfd, hdrInfo) ==> h == lastForkHash && rd == lastForkRound && ep == lastForkEpoch
+  ensures  lower-round-wins: !skipped(bfd, hdrInfo) && effRound(hdrInfo) < lastForkRound ==> h == hdrInfo.hash && rd == effRound(hdrInfo) && ep == hdrInfo.epoch
+  ensures  higher-round-keeps: effRound(hdrInfo) > lastForkRound ==> h == lastForkHash && rd == lastForkRound && ep == lastForkEpoch
+  ensures  same-round-lower-hash-wins: !skipped(bfd, hdrInfo) && effRound(hdrInfo) == lastForkRound && bytesLess(hdrInfo.hash, lastForkHash) ==> h == hdrInfo.hash && rd == effRound(hdrInfo) && ep == hdrInfo.epoch
+  ensures  same-round-not-lower-keeps: effRound(hdrInfo) == lastForkRound && !bytesLess(hdrInfo.hash, lastForkHash) ==> h == lastForkHash && rd == lastForkRound && ep == lastForkEpoch
+  assigns  nothing
+
+// the rule by which the node's own (processed) header loses against the chosen competing header
+spec fn sameEpochRule(lastForkRound uint64, selfEpoch uint32, lastForkEpoch uint32) bool = lastForkRound == 0 || selfEpoch == lastForkEpoch
+
+func (bfd *baseForkDetector) shouldSignalFork(headerInfo *headerInfo, lastForkHash []byte, lastForkRound uint64, lastForkEpoch uint32) (r bool)
+  requires headerInfo != nil
+  ensures  same-hash-no-fork: str(headerInfo.hash) == str(lastForkHash) ==> !r
+  ensures  epoch-ahead-no-fork: lastForkRound != 0 && headerInfo.epoch > lastForkEpoch ==> !r
+  ensures  epoch-behind-fork: str(headerInfo.hash) != str(lastForkHash) && lastForkRound != 0 && headerInfo.epoch < lastForkEpoch ==> r
+  ensures  later-round-fork: str(headerInfo.hash) != str(lastForkHash) && sameEpochRule(lastForkRound, headerInfo.epoch, lastForkEpoch) && headerInfo.round > lastForkRound ==> r
+  ensures  earlier-round-no-fork: sameEpochRule(lastForkRound, headerInfo.epoch, lastForkEpoch) && headerInfo.round < lastForkRound ==> !r
+  ensures  same-round-higher-hash-fork: str(headerInfo.hash) != str(lastForkHash) && sameEpochRule(lastForkRound, headerInfo.epoch, lastForkEpoch) && headerInfo.round == lastForkRound ==> (r <==> (bytesLess(lastForkHash, headerInfo.hash) && bfd.fork.highestNonceReceived <= headerInfo.nonce))
+  assigns  nothing
+
+// timing-dependent: a function of the detector's state and the round handler; not decided here
+func (bfd *baseForkDetector) isConsensusStuck() (r bool)
+  pure
+  trusted
+
+func (bfd *baseForkDetector) CheckFork() (r *process.ForkInfo)
+  requires final-checkpoint-set: bfd.fork.finalCheckpoint != nil
+  requires no-nil-entry: forall n uint64, k int :: has(bfd.headers, n) && 0 <= k && k < len(bfd.headers[n]) ==> bfd.headers[n][k] != nil
+  ensures  fresh(r)
+  ensures  respects-finality: !bfd.isConsensusStuck() && old(bfd.fork.rollBackNonce) == maxU64 && r.IsDetected ==> r.Nonce > old(bfd.fork.finalCheckpoint.nonce)
+  ensures  fork-at-contested-nonce: !bfd.isConsensusStuck() && old(bfd.fork.rollBackNonce) == maxU64 && r.IsDetected ==> has(bfd.headers, r.Nonce) && len(bfd.headers[r.Nonce]) != 1
+  ensures  stuck-forces-fork: bfd.isConsensusStuck() ==> r.IsDetected && r.Nonce == maxU64 && bfd.fork.rollBackNonce == old(bfd.fork.rollBackNonce)
+  ensures  rollback-is-reported-once: !bfd.isConsensusStuck() && old(bfd.fork.rollBackNonce) < maxU64 ==> r.IsDetected && r.Nonce == old(bfd.fork.rollBackNonce) && bfd.fork.rollBackNonce == maxU64
+  ensures  no-fork-no-data: !r.IsDetected ==> r.Nonce == maxU64 && r.Round == maxU64 && len(r.Hash) == 0
+  assigns  bfd.fork, bfd.maxForkHeaderEpoch
+
+loop 1
+  invariant forkInfoObject.IsDetected ==> forkInfoObject.Nonce > finalCheckpointNonce && has(bfd.headers, forkInfoObject.Nonce) && len(bfd.headers[forkInfoObject.Nonce]) != 1
+  invariant !forkInfoObject.IsDetected ==> forkInfoObject.Nonce == maxU64 && forkInfoObject.Round == maxU64 && len(forkInfoObject.Hash) == 0
+
+loop 2
+  invariant 0 <= i && i <= len(hdrsInfo)
+
+// Order independence inside a nonce: folding computeForkInfo over two competing entries gives the same choice in both
+// arrival orders, for every accumulator (by induction: for every permutation of the entries of a nonce).
+lemma fork-choice-commutes
+  vars bfd *baseForkDetector, a *headerInfo, b *headerInfo, sh []byte, sr uint64, se uint32
+  hyp  a != nil && b != nil
+  hyp  hash-identifies-epoch: str(a.hash) == str(b.hash) ==> a.epoch == b.epoch
+  call h1, r1, e1 = bfd.computeForkInfo(a, sh, sr, se)
+  call hab, rab, eab = bfd.computeForkInfo(b, h1, r1, e1)
+  call h2, r2, e2 = bfd.computeForkInfo(b, sh, sr, se)
+  call hba, rba, eba = bfd.computeForkInfo(a, h2, r2, e2)
+  concl same-round: rab == rba
+  concl same-hash: str(hab) == str(hba)
+  concl same-epoch: eab == eba
+
+// the verdict for the node's own header depends on the chosen competitor's hash content, round and epoch only
+lemma signal-depends-on-choice-only
+  vars bfd *baseForkDetector, self *headerInfo, h1 []byte, h2 []byte, rd uint64, ep uint32
+  hyp  self != nil && str(h1) == str(h2)
+  call s1 = bfd.shouldSignalFork(self, h1, rd, ep)
+  call s2 = bfd.shouldSignalFork(self, h2, rd, ep)
+  concl same-verdict: s1 == s2
+
+// The list kept per nonce never holds two entries with the same hash and state: append refuses a known (hash, state).
+spec fn known(l []*headerInfo, e *headerInfo, j int) bool = exists k :: 0 <= k && k < j && bytesEq(l[k].hash, e.hash) && l[k].state == e.state
+
+// number of entries stored for a nonce (a nonce that is not a key has none)
+spec fn lenAt(bfd *baseForkDetector, n uint64) int = has(bfd.headers, n) ? len(bfd.headers[n]) : 0
+
+func (bfd *baseForkDetector) append(hdrInfo *headerInfo) (r bool)
+  requires hdrInfo != nil && bfd.headers != nil
+  requires no-nil-entry: forall k :: 0 <= k && k < lenAt(bfd, hdrInfo.nonce) ==> bfd.headers[hdrInfo.nonce][k] != nil
+  ensures  refused-iff-known: r == !known(old(bfd.headers[hdrInfo.nonce]), hdrInfo, old(lenAt(bfd, hdrInfo.nonce)))
+  ensures  refused-unchanged: !r ==> lenAt(bfd, hdrInfo.nonce) == old(lenAt(bfd, hdrInfo.nonce)) && bfd.headers[hdrInfo.nonce] == old(bfd.headers[hdrInfo.nonce])
+  ensures  appended-last: r ==> lenAt(bfd, hdrInfo.nonce) == old(lenAt(bfd, hdrInfo.nonce)) + 1 && bfd.headers[hdrInfo.nonce][old(lenAt(bfd, hdrInfo.nonce))] == hdrInfo
+  ensures  earlier-entries-kept: forall k :: 0 <= k && k < old(lenAt(bfd, hdrInfo.nonce)) ==> bfd.headers[hdrInfo.nonce][k] == old(bfd.headers[hdrInfo.nonce][k])
+  assigns  mapof(bfd.headers), elems(bfd.headers[hdrInfo.nonce])
+
+loop 1
+  invariant -1 <= rangeindex && rangeindex < len(hdrInfos) || (rangeindex == -1 && len(hdrInfos) == 0)
+  invariant !known(hdrInfos, hdrInfo, rangeindex + 1)
+@*/
